@@ -15,4 +15,34 @@ CLAIMED["C13"] = {
     "note": "Trusted: Coq kernel; Spec/PatchFlags.v as the reading of Vue's contract; model tied to code differentially. Known finding class_on_builtin_host (Fragment/KeepAlive hosts get the element treatment of class/style). The `_`=2 direction for bound identifier children is exercised by correspondence only.",
     "technique": "Coq proof (fold invariant over the attribute list) + output-only oracle on real outputs + view correspondence",
 }
-NOT_CLAIMED = {p: UNDER for p in ["C01", "C03", "C04", "C05", "C06", "C07", "C08", "C09", "C10", "C11", "C12", "C14", "C15", "C16", "C17", "C18", "C19", "C20"]}
+CLAIMED["C07"] = {
+    "text": "Theorem C07_lowering_is_jsx_free: for every JSX element/fragment (unbounded nesting, attributes, children) whose embedded expressions are JSX-free, the model's lowering contains no JSX node - element-valued attributes, namespaced tags, directive values included (structural induction over the nested AST). On every generated/corpus case the REAL output is censused for JSX nodes and its printed form is re-parsed with JSX off unless a diagnostic was reported.",
+    "note": "Module-level composition (the traversal reaches every JSX expression) is checked per case, not proved; `printed form re-parses` is about SWC's printer/parser (empirical). Trusted: Coq kernel; hand model tied differentially.",
+    "technique": "Coq proof by induction over the nested AST + JSX census and re-parse of real outputs",
+}
+CLAIMED["C08"] = {
+    "text": "Theorem C08_attrs_no_panic: for every parser-producible attribute list the attribute lowering never reaches the code's `unreachable!` (every panic site of the code is an explicit flag in the model; the site list is linted against the source on every run). Totality/determinism of the real code is exercised: every case under catch_unwind in a child process with a time limit, re-run in-process, and a sample re-run in two fresh processes in opposite orders with byte comparison.",
+    "note": "Stack exhaustion, time and process-level nondeterminism cannot be exhibited by a Gallina model (harness only). Termination of type resolution on cyclic declarations is a known finding candidate handled under the resolveType properties. Determinism of the model is by construction (a Coq function); for the code it rests on lints + re-runs.",
+    "technique": "Coq proof (panic-site unreachability for the attribute fold) + crash/timeout/re-run differential harness + source lints",
+}
+CLAIMED["C09"] = {
+    "text": "Theorem C09_identity: for every environment without resolveType and every JSX-free module (any size), the model returns the module unchanged with nothing added (induction over the whole AST with the visitor state as invariant); C09_visit_identity gives the same for every sub-tree in every traversal mode. On real runs: 70 real-world JSX-free files and every JSX-free generated module must come back identical, and the visitor is run a second time on its own output of every case (idempotence).",
+    "note": "The frame statement for modules WITH JSX (non-JSX parts embed unchanged) is covered by whole-output correspondence with the model, not by a separate theorem. Idempotence is decided on real second passes.",
+    "technique": "Coq proof by induction over the generic AST + identity/idempotence oracles on real runs + whole-output correspondence",
+}
+CLAIMED["C12"] = {
+    "text": "Theorems C12_attrs_independent / C12_tag_independent (attribute lowering, tag, host kind and factory do not read `optimize`, by conversion) and C12_hints_only_partial (no hint without the option; erasing `_` from a slots object built with it gives the object built without it). The module-level statement strip_hints(out(optimize=true)) = out(optimize=false) is decided on paired REAL runs of every generated case.",
+    "note": "The module-level equality is not yet a theorem (labelled partial); Spec/OutViews.strip_hints defines `erasing the hints`. Trusted: Coq kernel; hand model tied differentially.",
+    "technique": "Coq proofs for the pieces + paired-run oracle (erase hints, compare) on real outputs",
+}
+CLAIMED["C14"] = {
+    "text": "Theorems about the model of serde's Options deserialisation: `{}`/`[]` give the defaults (values re-read from options.rs each run), unknown keys anywhere are ignored, an absent key keeps its default, an invalid pattern anywhere rejects the configuration; and element-level non-interference: transformOn only matters for on/nativeOn attributes, enableObjectSlots only for a component's sole identifier/call child, patterns only for tags they match. Configuration texts in many spellings go through the real serde_json call and are compared with the model; paired real runs flip an option the module does not use and compare outputs byte for byte.",
+    "note": "serde/serde_json/regex are trusted libraries exercised, not verified; mergeProps/resolveType non-interference are decided by paired runs only.",
+    "technique": "Coq proofs (list induction / conversion) + differential test of the configuration reader + paired-run oracle",
+}
+CLAIMED["C15"] = {
+    "text": "Theorems: C15_annotation_grammar (the comment scan = `@jsx` + whitespace + name, for every comment text, by induction with fuel discharged), C15_module_pragma, C15_pragma_stable (lowering an element of any size never changes the pragma: frame induction over the nested AST), C15_factory / C15_no_createVNode_import (the callee is the annotated name, else the option, else the imported createVNode; createVNode is requested only then). On real outputs: every vnode call's callee and the generated import list are checked against Spec/Pragma.expected_pragma.",
+    "note": "Modules whose annotations disagree are outside the claim. Trusted: Coq kernel; hand model tied differentially.",
+    "technique": "Coq proofs (string induction; frame induction over the AST) + callee/import oracle on real outputs",
+}
+NOT_CLAIMED = {p: UNDER for p in ["C01", "C03", "C04", "C05", "C06", "C10", "C11", "C16", "C17", "C18", "C19", "C20"]}
